@@ -17,7 +17,7 @@ def emit(sj, header='<hfsm2/machine.hpp>'):
                 name = (base + ('PeerRoot' if n['headless'] else 'Root')) if root else ((base if base else 'Composite') + ('Peers' if n['headless'] else ''))
             else:
                 name = ('Orthogonal' + ('PeerRoot' if n['headless'] else 'Root')) if root else ('Orthogonal' + ('Peers' if n['headless'] else ''))
-            return 'M::%s<%s%s>' % (name, head, kids)
+            return '%s::%s<%s%s>' % ('MP' if prefix == 'P' else 'M', name, head, kids)
         return reg(0, True)
     decl = lambda p: '\n'.join('struct %s%d;' % (p, i) for i in named)
     out = []
@@ -25,7 +25,7 @@ def emit(sj, header='<hfsm2/machine.hpp>'):
     out.append('#include %s\n#include <cstdio>' % header)
     out.append('static int g_seen[%d]; static int g_bad = 0;' % len(nodes))
     out.append('#ifdef HFSM2_VERIF\nextern "C" void hfsm2_verif_break(const char*, int) { ++g_bad; }\n#endif')
-    out.append('using M = hfsm2::MachineT<hfsm2::Config>;')
+    out.append('using M = hfsm2::MachineT<hfsm2::Config>;\nusing MP = hfsm2::MachineT<hfsm2::Config::PayloadT<int>>;      // the peer is declared with a payload type: ids must not depend on it')
     out.append(decl('N')); out.append('using FSM = %s;' % types('N'))
     out.append(decl('P')); out.append('using PEER = %s;' % types('P'))
     for i in named:
@@ -35,6 +35,11 @@ def emit(sj, header='<hfsm2/machine.hpp>'):
     out.append('  printf("{\\"STATE_COUNT\\":%d,\\"REGION_COUNT\\":%d,\\"COMPO_COUNT\\":%d,\\"ORTHO_COUNT\\":%d,\\"ORTHO_UNITS\\":%d,\\"TASK_CAPACITY\\":%d,\\"SERIAL_BITS\\":%d,\\"SERIAL_BYTES\\":%d,", (int)FSM::STATE_COUNT, (int)FSM::REGION_COUNT, (int)FSM::COMPO_COUNT, (int)FSM::ORTHO_COUNT, (int)FSM::ORTHO_UNITS, (int)FSM::TASK_CAPACITY, (int)FSM::SERIAL_BITS, (int)sizeof(FSM::Instance::SerialBuffer));')
     out.append('  printf("\\"sid\\":{"); const char* sep = "";')
     for i in named: out.append('  printf("%%s\\"%d\\":[%%d,%%d]", sep, (int)FSM::stateId<N%d>(), (int)PEER::stateId<P%d>()); sep = ",";' % (i, i, i))
+    out.append('  printf("},\\"isid\\":{"); sep = "";')
+    for i in named: out.append('  printf("%%s\\"%d\\":[%%d,%%d]", sep, (int)FSM::Instance::stateId<N%d>(), (int)PEER::Instance::stateId<P%d>()); sep = ",";' % (i, i, i))
+    out.append('  printf("},\\"irid\\":{"); sep = "";')
+    for i in named:
+        if nodes[i]['kind'] != 'L': out.append('  printf("%%s\\"%d\\":[%%d,%%d]", sep, (int)FSM::Instance::regionId<N%d>(), (int)PEER::Instance::regionId<P%d>()); sep = ",";' % (nodes[i]['region'], i, i))
     out.append('  printf("},\\"rid\\":{"); sep = "";')
     for i in named:
         if nodes[i]['kind'] != 'L': out.append('  printf("%%s\\"%d\\":[%%d,%%d]", sep, (int)FSM::regionId<N%d>(), (int)PEER::regionId<P%d>()); sep = ",";' % (nodes[i]['region'], i, i))
